@@ -43,9 +43,11 @@ def configs_small():
                     continue
                 for buf in (0, 1, 2):
                     for disturb in (None, "cancel", "timeout"):
-                        for send_from in (False, True):
-                            if send_from and items < 2:
+                        for send_from in (False, True, "close"):
+                            if send_from is True and items < 2:
                                 continue
+                            if send_from == "close" and (senders != 1 or disturb):
+                                continue  # send_from(..., close=True): the (single) sender closes the channel itself
                             out.append({"senders": senders, "items": items, "receivers": receivers, "mode": mode, "buf": buf,
                                         "disturb": disturb, "send_from": send_from})
     return out
@@ -111,8 +113,15 @@ def run_schedule(cfg, chooser: Chooser):
                     items = [Item((i, k)) for k in range(cfg["items"])]
                     d.log("call", who, "send_from", items)
                     try:
-                        await ch.send_from(items)
-                        d.log("ret", who, "send_from", "ok")
+                        if cfg["send_from"] == "close":
+                            await ch.send_from(items, close=True)
+                            d.log("ret", who, "send_from", "ok")
+                            d.log("call", "c", "close")
+                            d.log("ret", "c", "close")
+                            outcome["c"] = "done"
+                        else:
+                            await ch.send_from(items)
+                            d.log("ret", who, "send_from", "ok")
                     except ChannelClosed:
                         d.log("ret", who, "send_from", "ChannelClosed")
                 else:
@@ -202,7 +211,8 @@ def run_schedule(cfg, chooser: Chooser):
         for j in range(cfg["receivers"]):
             mode = cfg["mode"] if cfg["mode"] != "mixed" else ("receive" if j % 2 == 0 else "iter")
             tasks[f"r{j}"] = loop.create_task(receiver(j, mode))
-        tasks["c"] = loop.create_task(closer())
+        if cfg["send_from"] != "close":
+            tasks["c"] = loop.create_task(closer())
         if cfg["disturb"]:
             tasks["x"] = loop.create_task(disturber())
         await d.run(tasks)
@@ -381,7 +391,7 @@ def history_hash(run) -> str:
 
 
 def cfg_name(cfg) -> str:
-    return (f"s{cfg['senders']}x{cfg['items']}{'f' if cfg['send_from'] else ''}-r{cfg['receivers']}{cfg['mode'][0]}-b{cfg['buf']}"
+    return (f"s{cfg['senders']}x{cfg['items']}{('fc' if cfg['send_from'] == 'close' else 'f') if cfg['send_from'] else ''}-r{cfg['receivers']}{cfg['mode'][0]}-b{cfg['buf']}"
             f"-{cfg['disturb'] or 'nodisturb'}")
 
 
